@@ -85,6 +85,12 @@ def run(ctx):
     ctx.floor("R1.instances", 2)
     ctx.floor("R4.instances", 2)
 
+    # ---- what "signatures meet a key set and threshold" means is C01's rule set, re-evaluated here:
+    # a root update is only as sound as the envelope verifier it calls
+    from . import c01
+
+    c01.run(ctx.sub("DEP-C01"))
+
 
 def _cause(eng, p, x, T, U, tv, uv, pairs):
     top = x.chain[0]
